@@ -38,6 +38,18 @@ Theorem C18_terminated_name_gone : forall st x name q,
   lookup_name name (n_names (terminate st x)) = Some q -> pid_eqb q (pp x) = false.
 Proof. exact terminated_name_gone. Qed.
 
+(* ... and only its own: a name held by another process survives the termination, also a name the terminating process
+   held earlier, gave up, and the other process took *)
+Theorem C18_others_keep_their_names : forall st x name q,
+  lookup_name name (n_names st) = Some q -> pid_eqb q (pp x) = false -> lookup_name name (n_names (terminate st x)) = Some q.
+Proof. exact others_keep_their_names. Qed.
+
+Theorem C18_released_name_belongs_to_the_new_holder : forall cfg st name q x,
+  lookup_name name (n_names st) = None -> pid_eqb q (pp x) = false ->
+  let st' := fst (step cfg st (ORegister name q)) in
+  lookup_name name (n_names st') = Some q /\ lookup_name name (n_names (terminate st' x)) = Some q.
+Proof. exact released_name_belongs_to_the_new_holder. Qed.
+
 (* a name never maps to two processes: a taken name is refused, a free one is taken and nothing else changes *)
 Theorem C18_name_taken_refused : forall cfg st name p q, lookup_name name (n_names st) = Some q ->
   step cfg st (ORegister name p) = (st, UErr).
